@@ -182,7 +182,12 @@ def r6(ctx):
                 return -1 if c[1] is ast.NotEq else +1
             return None
         # chown is skipped only when both ids already match
-        r = g.reachable([g.entry], without_nodes=ch, without_edges=[(t, "false") for t in g.tests() if differs(t.ast) == -1][-1:], follow_exc=False)
+        idt = [t for t in g.tests() if differs(t.ast) is not None]
+        kinds = set("uid" if "uid" in norm(t.ast) else "gid" for t in idt)
+        skip = [(t, "false" if differs(t.ast) == -1 else "true") for t in idt]
+        p = g.path(g.entry, [g.exit], without_nodes=ch, without_edges=skip, follow_exc=False) if kinds == {"uid", "gid"} else [g.entry]
+        ctx.check("C20.R6", kinds == {"uid", "gid"} and p is None, key(f, "chown-unless-both-match"), site(f, ch[0]),
+                  "the heartbeat file's chown is skipped although one of uid/gid differs from the master's", "chown unless both ids already match")
     for c in calls_to(repo, f, [UTIL + ".chown", "os.chown"]):
         ctx.check("C20.R6", [cfg_attr(a) for a in c.args[1:3]] == ["uid", "gid"], key(f, "chown-args"), site(f, c), "the heartbeat file is not chowned to (cfg.uid, cfg.gid)", "chown(.., cfg.uid, cfg.gid)")
     fb = ctx.fn(repo.func("gunicorn.sock.UnixSocket.bind"))
@@ -193,6 +198,13 @@ def r6(ctx):
     okk = bool(bd) and bool(ch) and len(um) == 2 and all(any(gb.dominates(b, c, follow_exc=False) for b in bd) for c in ch) and gb.dominates(um[0], bd[0], follow_exc=False) and gb.dominates(bd[0], um[1], follow_exc=False)
     ctx.check("C20.R6", okk, key(fb, "bind-chown-umask"), site(fb), "UnixSocket.bind is not `umask(cfg.umask); bind; chown(path, uid, gid); umask(old)`: workers of another user could not accept on / clients not connect to the socket",
               "umask -> bind -> chown -> restore umask")
+    if bd and ch:
+        # the chown may be skipped only by a test that looks at BOTH ids (as WorkerTmp does)
+        both = [(t, lab) for t in gb.tests() for lab in ("true", "false") if "uid" in norm(t.stmt.test if hasattr(t.stmt, "test") else t.ast) and "gid" in norm(t.stmt.test if hasattr(t.stmt, "test") else t.ast)]
+        p = gb.path(bd[0], [gb.exit], without_nodes=ch, without_edges=both, follow_exc=False)
+        ctx.check("C20.R6", p is None, key(fb, "chown-unconditional"), site(fb, ch[0]),
+                  "after bind() the unix socket can be left without chown although only one of user/group differs (e.g. a group-only configuration): the socket stays owned by the master's user/group "
+                  "and the configured group cannot connect", "chown on every path after bind", path=p and gb.fmt_path(p))
     for c in calls_to(repo, fb, [UTIL + ".chown", "os.chown"]):
         ctx.check("C20.R6", [tail(a) for a in c.args[1:3]] == ["uid", "gid"], key(fb, "chown-args"), site(fb, c), "the unix socket is not chowned to the configured uid/gid", "chown(addr, conf.uid, conf.gid)")
     for nm in ("validate_user", "validate_group"):
